@@ -247,3 +247,59 @@ func (s *Spec) Build() []byte {
 	}
 	return img
 }
+
+// ParseTdxSections is a tolerant reader of an image's TDVF metadata: it follows the GUID table to the
+// TDX metadata offset and returns as many section records as the descriptor declares and the image
+// holds. It never panics and performs no validation; ok=false when the structures cannot be located.
+func ParseTdxSections(img []byte) (secs []TdxSection, ok bool) {
+	defer func() {
+		if recover() != nil {
+			secs, ok = nil, false
+		}
+	}()
+	const endOff = 0x20
+	if len(img) < endOff+18 {
+		return nil, false
+	}
+	var footer [16]byte
+	PutGUID(footer[:], FooterGUID)
+	fpos := len(img) - endOff - 18
+	if string(img[fpos+2:fpos+18]) != string(footer[:]) {
+		return nil, false
+	}
+	total := int(binary.LittleEndian.Uint16(img[fpos:]))
+	if total < 18 || total > len(img)-endOff {
+		return nil, false
+	}
+	var want [16]byte
+	PutGUID(want[:], TdxMetaOffsetGUID)
+	end := fpos // entries end where the footer starts
+	start := len(img) - endOff - total
+	for end-start >= 18 {
+		size := int(binary.LittleEndian.Uint16(img[end-18:]))
+		if size < 18 || size > end-start {
+			return nil, false
+		}
+		if string(img[end-16:end]) == string(want[:]) && size >= 22 {
+			off := int(binary.LittleEndian.Uint32(img[end-size:]))
+			pos := len(img) - off
+			if off < 16 || pos < 0 || pos+16 > len(img) {
+				return nil, false
+			}
+			count := int(binary.LittleEndian.Uint32(img[pos+12:]))
+			for i := 0; i < count && i < 4096; i++ {
+				o := pos + 16 + 32*i
+				if o+32 > len(img) {
+					break
+				}
+				secs = append(secs, TdxSection{
+					DataOffset: binary.LittleEndian.Uint32(img[o:]), DataSize: binary.LittleEndian.Uint32(img[o+4:]),
+					MemoryBase: binary.LittleEndian.Uint64(img[o+8:]), MemorySize: binary.LittleEndian.Uint64(img[o+16:]),
+					Type: binary.LittleEndian.Uint32(img[o+24:]), Attributes: binary.LittleEndian.Uint32(img[o+28:])})
+			}
+			return secs, true
+		}
+		end -= size
+	}
+	return nil, false
+}
